@@ -445,7 +445,7 @@ pub fn format_number(value_original: f64, format: &str, locale: &Locale) -> Form
             );
             let mut value_abs = value.abs();
             let mut exponent_part: Vec<char> = vec![];
-            let mut exponent_is_negative = value_abs < 10.0;
+            let mut exponent_is_negative = value_abs < 1.0;
             if p.is_scientific {
                 if value_abs == 0.0 {
                     exponent_part = vec!['0'];
